@@ -72,7 +72,7 @@ def _install(ctx, ex, hw):
     def first_unused(it_, stn, sc):
         """loop contract of the scan for the first unused physical id, for either way of writing it:
              for p in count(k): if p not in used: ... return p          (havoc p with forall k <= q < p: q in used; run the body once)
-             while p in used: p += 1                                    (havoc p likewise, plus p not in used; loop done)
+             while p in used [or p in other ...]: p += 1                (havoc p likewise, plus p in none of them; loop done)
         anything else: no contract (the real loop is executed)"""
         import ast as _ast
         used = sc.self0._used_physical_qubit_addresses
@@ -87,15 +87,30 @@ def _install(ctx, ex, hw):
             it_.assign(stn.target, SInt(p), sc)
             it_.exec_block(stn.body, sc)
             raise I.PathAbort()        # body fell through: p is in use, invariant extends to p + 1
-        if isinstance(stn, _ast.While) and isinstance(stn.test, _ast.Compare) and len(stn.test.ops) == 1 and isinstance(stn.test.ops[0], _ast.In) \
-                and isinstance(stn.test.left, _ast.Name) and len(stn.body) == 1 and isinstance(stn.body[0], _ast.AugAssign) \
-                and isinstance(stn.body[0].op, _ast.Add) and getattr(stn.body[0].target, "id", None) == stn.test.left.id \
-                and isinstance(stn.body[0].value, _ast.Constant) and stn.body[0].value.value == 1 and not stn.orelse:
-            start = lift_int(it_.ev(stn.test.left, sc))
+        if isinstance(stn, _ast.While) and len(stn.body) == 1 and isinstance(stn.body[0], _ast.AugAssign) and isinstance(stn.body[0].op, _ast.Add) \
+                and isinstance(stn.body[0].target, _ast.Name) and isinstance(stn.body[0].value, _ast.Constant) and stn.body[0].value.value == 1 and not stn.orelse:
+            var = stn.body[0].target.id
+            # the test: ``var in C`` or a disjunction of such tests; C is the symbolic in-use set or a concrete collection of ids
+            terms = stn.test.values if (isinstance(stn.test, _ast.BoolOp) and isinstance(stn.test.op, _ast.Or)) else [stn.test]
+            conts = []
+            for t in terms:
+                if not (isinstance(t, _ast.Compare) and len(t.ops) == 1 and isinstance(t.ops[0], _ast.In) and isinstance(t.left, _ast.Name) and t.left.id == var):
+                    return NotImplemented
+                c = it_.ev(t.comparators[0], sc)
+                if isinstance(c, M.SymIntSet):
+                    conts.append(lambda x, c=c: z3.Select(c.arr, x))
+                elif isinstance(c, (list, tuple, set, frozenset)) and all(isinstance(v, int) for v in c):
+                    conts.append(lambda x, c=c: z3.Or(*[x == v for v in c]) if c else z3.BoolVal(False))
+                else:
+                    return NotImplemented
+
+            def taken(x):
+                return z3.Or(*[f(x) for f in conts])
+            start = lift_int(it_.ev(_ast.Name(id=var, ctx=_ast.Load()), sc))
             it_.fresh_ctr += 1
             p = z3.Int(f"scan!{it_.fresh_ctr}")
-            it_.pc.append(z3.And(p >= start, z3.Not(z3.Select(used.arr, p)), z3.ForAll([q], z3.Implies(z3.And(q >= start, q < p), z3.Select(used.arr, q)))))
-            it_.assign(stn.test.left, SInt(p), sc)
+            it_.pc.append(z3.And(p >= start, z3.Not(taken(p)), z3.ForAll([q], z3.Implies(z3.And(q >= start, q < p), taken(q)))))
+            it_.assign(_ast.Name(id=var, ctx=_ast.Store()), SInt(p), sc)
             return None                 # loop finished
         return NotImplemented
     it.loop_contracts[("netqasm.backend.executor.Executor._get_unused_physical_qubit", 0)] = first_unused
